@@ -60,7 +60,7 @@ Theorem C15_refuted_small_n :
 Proof. exact pipeline_refuted_small_n. Qed.
 Print Assumptions C15_refuted_small_n.
 
-(* lb <> 0 / step <> 1: the schedule is wrong, hence the guard in ConstructPipeline (fix 1b77d59) *)
+(* lb <> 0 / step <> 1: the schedule is wrong, hence the guard in ConstructPipeline (fix 143a65c) *)
 Theorem C15_refuted_lb_step :
   (exists S lb ub, lb <> 0 /\ Z.of_nat S - 1 <= trip lb ub 1 /\
      ~ Permutation (concat (unrolled S ub 1)) (concat (seq_pairs S lb ub 1))) /\
@@ -72,7 +72,7 @@ Print Assumptions C15_refuted_lb_step.
 (* which loops the pass touches: exactly those with constant lb 0, step 1 whose body (behind the index
    ops) consists of >= 2 groups of stage ops, each closed by a barrier, and nothing else before the
    yield; every other loop is left unchanged (the identity is trivially equal to the sequential loop).
-   Before repo fix 3624df2 a body with further ops behind >= 2 stages was pipelined and the ops left
+   Before repo fix ce37edb a body with further ops behind >= 2 stages was pipelined and the ops left
    behind ran for the steady-state iterations only (notes/probe_c15_trailing_ops.mlir). *)
 Theorem C15_recognised_shape :
   forall p lb st body, recognised p lb st body = true ->
